@@ -1591,3 +1591,140 @@ Proof.
     apply in_app_or in Hz. destruct Hz as [Hz|[<-|[]]]; [|lia].
     specialize (I6 z Hz). rewrite Hpe, app_nil_r, I4 in I6. unfold ve. lia.
 Qed.
+
+(** ** 5f. the critical path of the root is the heaviest path of the explicit DAG *)
+Lemma dag_rows_leaves : forall t o ins, map (fun r => (r_kind r, r_leaf r)) (d_rows (dag t o ins)) = leaves t.
+Proof.
+  induction t as [l|l c IH|items w IH|items e IH] using tree_ind'; intros o ins.
+  - reflexivity.
+  - cbn [dag d_rows map leaves r_kind r_leaf]. rewrite IH. reflexivity.
+  - cbn [dag d_rows leaves]. rewrite map_app. cbn [map r_kind r_leaf]. f_equal.
+    revert o ins. induction IH as [|x r Hx _ IHr]; intros o ins; [reflexivity|].
+    cbn [dag_items d_rows flat_map]. rewrite map_app, Hx, IHr. reflexivity.
+  - cbn [dag d_rows leaves]. rewrite map_app. cbn [map r_kind r_leaf]. f_equal.
+    revert o ins. induction IH as [|x r Hx _ IHr]; intros o ins; [reflexivity|].
+    cbn [dag_items d_rows flat_map]. rewrite map_app, Hx, IHr. reflexivity.
+Qed.
+
+Lemma dag_weights_nonneg : forall t, nonneg t -> forall v, 0 <= node_weight (dag_of t) v.
+Proof.
+  intros t Hnn v. unfold node_weight. destruct (nth_error (dag_of t) v) as [r|] eqn:E; [|lia].
+  unfold nonneg in Hnn. unfold dag_of in E. rewrite <- (dag_rows_leaves t 0%nat []) in Hnn.
+  rewrite Forall_forall in Hnn. apply nth_error_In in E.
+  apply (Hnn (r_kind r, r_leaf r)). apply (in_map (fun r => (r_kind r, r_leaf r))). exact E.
+Qed.
+
+Lemma max0_look_le : forall vals ps, (forall z, In z vals -> 0 <= z) -> max0 (map (look vals) ps) <= max0 vals.
+Proof.
+  intros vals ps Hnn. apply max0_le; [apply max0_nonneg|].
+  intros x Hx. apply in_map_iff in Hx. destruct Hx as (p & <- & _). unfold look.
+  destruct (Nat.lt_ge_cases (fst p) (length vals)) as [Hlt|Hge].
+  - apply max0_ge, nth_In, Hlt.
+  - rewrite nth_overflow by lia. apply max0_nonneg.
+Qed.
+
+Theorem rec0_tinf_longest : forall oc t, well_nested t -> nonneg t ->
+  Ti oc t = longest_path (dag_of t).
+Proof.
+  intros oc t Hwf Hnn.
+  destruct (dag_dp_ok oc t CChild Hwf Hnn [] []) as (vals & D1 & D2 & D3 & D4 & D5 & D6); [intros p []|].
+  cbn [length app map] in *. change (max0 []) with 0 in *.
+  unfold longest_path, dag_of. rewrite D1.
+  destruct (wf_child_task _ Hwf) as (items & e & Et).
+  assert (Hp : map (look vals) (d_pend (dag t 0 [])) = []) by (rewrite D5, Et; reflexivity).
+  pose proof (Ti_nonneg oc t Hnn) as HT.
+  apply Z.le_antisymm.
+  - rewrite <- (Z.add_0_l (Ti oc t)), <- D4. apply max0_look_le. exact D3.
+  - apply max0_le; [exact HT|]. intros z Hz. specialize (D6 z Hz).
+    rewrite map_app, max0_app, Hp, D4 in D6. change (max0 []) with 0 in D6. lia.
+Qed.
+
+Lemma dag_of_nonempty : forall t, well_nested t -> dag_of t <> [].
+Proof.
+  intros t Hwf. destruct (wf_child_task _ Hwf) as (items & e & ->).
+  unfold dag_of. cbn [dag d_rows]. intros H. apply app_eq_nil in H. destruct H as [_ H]. discriminate.
+Qed.
+
+Theorem root_tinf : forall oc summ, contracting summ -> forall t, well_nested t -> nonneg t ->
+  i_tinf (root_info oc summ t) = longest_path (dag_of t) /\
+  (forall p, is_path (dag_of t) p -> path_weight (dag_of t) p <= i_tinf (root_info oc summ t)) /\
+  (exists p, is_path (dag_of t) p /\ path_weight (dag_of t) p = i_tinf (root_info oc summ t)).
+Proof.
+  intros oc summ Hs t Hwf Hnn.
+  destruct (info_eqc_fields _ _ (root_info_rec0 oc summ Hs t)) as (_ & _ & _ & _ & _ & -> & _).
+  change (i_tinf (ninfo (rec0 oc t))) with (Ti oc t). rewrite (rec0_tinf_longest oc t Hwf Hnn).
+  split; [reflexivity|]. split.
+  - intros p Hp. apply path_le_longest; [apply dag_of_topo|exact Hp].
+  - apply longest_attained; [apply dag_of_topo|apply dag_of_nonempty; exact Hwf|apply dag_weights_nonneg; exact Hnn].
+Qed.
+
+(** * 6. The generated report *)
+
+(** ** 6a. work line: the sum over what is materialised is the root's t_1, however contracted *)
+Definition full_stat_work (x : node) : Z := stat_work x.
+
+(** an in-memory DAG whose summaries are consistent with what is below them *)
+Inductive t1_ok : node -> Prop :=
+| t1_leaf : forall i, t1_ok (NLeaf i)
+| t1_create : forall i c, t1_ok c -> stat_work c = i_t1 (ninfo c) -> t1_ok (NCreate i c)
+| t1_collapsed : forall i, t1_ok (NSub i [])
+| t1_sub : forall i x ch, Forall t1_ok (x :: ch) -> i_t1 i = zsum (map full_t1 (x :: ch)) ->
+                          Forall (fun y => stat_work y = full_t1 y) (x :: ch) -> t1_ok (NSub i (x :: ch)).
+
+Lemma t1_ok_stat_work : forall n, t1_ok n -> (forall i c, n <> NCreate i c) -> stat_work n = i_t1 (ninfo n).
+Proof.
+  intros n H Hn. destruct H as [i|i c Hc He|i|i x ch Hch Hi Hst].
+  - reflexivity.
+  - exfalso. apply (Hn i c). reflexivity.
+  - reflexivity.
+  - cbn [stat_work ninfo]. rewrite Hi. f_equal. apply map_ext_Forall. exact Hst.
+Qed.
+
+Lemma stat_work_full : forall n, t1_ok n -> stat_work n = full_t1 n.
+Proof.
+  intros n H. destruct n as [i|i c|i ch].
+  - unfold full_t1, child_part; cbn. lia.
+  - inversion H; subst. unfold full_t1, child_part. cbn [stat_work ninfo]. lia.
+  - rewrite (t1_ok_stat_work _ H) by (intros; discriminate). unfold full_t1, child_part; cbn. lia.
+Qed.
+
+Lemma full_t1_eqc : forall n n', node_eqc n n' -> full_t1 n = full_t1 n'.
+Proof.
+  intros n n' H. unfold full_t1, child_part.
+  destruct n as [i|i c|i ch]; destruct n' as [i'|i' c'|i' ch']; cbn in H; try contradiction.
+  all: try (destruct H as [H Hc]; apply info_eqc_fields in Hc; destruct Hc as (_ & _ & _ & _ & Hc & _)).
+  all: apply info_eqc_fields in H; destruct H as (_ & _ & _ & _ & H & _); cbn [ninfo]; lia.
+Qed.
+
+Lemma contracts_t1_ok : forall n, t1_ok n -> forall n', contracts n n' -> t1_ok n'.
+Proof.
+  induction n as [i|i c IH|i ch IH] using node_ind'; intros Hok n' Hc.
+  - inversion Hc; subst. constructor.
+  - inversion Hc; subst. inversion Hok; subst.
+    assert (Hc' : t1_ok c') by (apply IH; assumption).
+    constructor; [exact Hc'|].
+    rewrite stat_work_full by exact Hc'.
+    pose proof (contracts_info _ _ H1) as He. apply info_eqc_fields in He.
+    destruct He as (_ & _ & _ & _ & He & _).
+    destruct c' as [i'|i' c''|i' ch'']; unfold full_t1, child_part; cbn [ninfo] in *; try lia.
+    (* a created task is a section/task node: excluded by the shape of c *)
+    inversion H1; subst. inversion H3; subst.
+    rewrite stat_work_full in H4 by assumption. unfold full_t1, child_part in H4. cbn [ninfo] in *. lia.
+  - inversion Hc; subst.
+    + destruct (set_cur i cur') eqn:E. constructor.
+    + destruct ch' as [|x' r'].
+      * destruct (set_cur i cur') eqn:E. constructor.
+      * inversion Hok as [| | |i0 x r Hch Hi Hst]; subst.
+        { inversion H1. }
+        assert (Hch' : Forall t1_ok (x' :: r')).
+        { clear - IH Hch H1. revert IH Hch. induction H1 as [|a a' l l' Ha Hl IHl]; intros IH Hch; [constructor|].
+          inversion IH; subst. inversion Hch; subst. constructor; [apply H2; assumption|apply IHl; assumption]. }
+        assert (Hmap : map full_t1 (x :: r) = map full_t1 (x' :: r')).
+        { clear - H1. induction H1 as [|a a' l l' Ha Hl IHl]; [reflexivity|].
+          cbn [map]. rewrite IHl. f_equal. apply full_t1_eqc, contracts_node_eqc, Ha. }
+        destruct (set_cur i cur') eqn:E.
+        assert (Ei : i_t1 (set_cur i cur') = i_t1 i) by (destruct i; reflexivity).
+        rewrite E in Ei. cbn [i_t1] in Ei.
+        apply t1_sub; [exact Hch'|cbn [i_t1]; rewrite Ei, Hi, Hmap; reflexivity|].
+        apply Forall_forall. intros y Hy. apply stat_work_full. rewrite Forall_forall in Hch'. apply Hch', Hy.
+Qed.
